@@ -58,12 +58,14 @@ def from_plan(shape, feats, i, for_codec=True):
     if "generic" in F: tparams.append(("T", False)); inst.append(U16)
     if "skipped_param" in F: tparams.append(("U", True)); inst.append(BOOL)
     if "lifetime" in F: lifetimes.append("a")
+    if "phantom_arg" in F: tparams.append(("W", False)); inst.append(ph(U8))      # a parameter INSTANTIATED with PhantomData: not a skipped parameter
     fs = [field(nm("a"), U8, docs=([" field doc", "no space", "   three spaces", "", " say \"hi\" {x} \\n 'q'"] if "docs" in F else ()))]
     fs.append(field(nm("b"), vec(opt(STR)), rename=("bee" if "rename" in F and named else None)))
     if "skip_field" in F: fs.insert(1, field(nm("s"), BOOL, skip=True))
     if "compact" in F: fs.append(field(nm("c"), U64, compact=True))
     if "phantom" in F: fs.insert(0, field(nm("p"), ph(P("U") if "skipped_param" in F else U8)))
     if "generic" in F: fs.append(field(nm("t"), tup(P("T"), arr(P("T"), 3))))
+    if "phantom_arg" in F: fs.append(field(nm("w"), vec(P("W"))))
     if "skipped_param" in F and "phantom" not in F: fs.append(field(nm("u"), ph(P("U"))))
     if "lifetime" in F: fs.append(field(nm("r"), ref(vec(P("T")) if "generic" in F else U32)))
     if "selfref" in F: fs.append(field(nm("k"), vec(SELF))); fs.append(field(nm("o"), opt(box(SELF))))
@@ -87,6 +89,8 @@ def from_plan(shape, feats, i, for_codec=True):
     elif "capture_default" in F: capture, ctext = "default", "DEFAULT"
     mods = ["m1", "m2"] if "modules" in F else []
     name = ("S%d" if shape != "enum" else "E%d") % i
+    if "raw_ident" in F:      # a module and a type written as raw identifiers: the marker is part of the path segment
+        mods = mods + ["r#mod"]; name = "r#" + name
     replace = []
     if "replace" in F:
         # overlapping search keys (first match wins), the type's own identifier, and a CHAIN: an earlier
@@ -178,7 +182,7 @@ def rand_decl0(r, i, for_codec=True):
     inst = [r.choice([U8, U32, STR, BOOL, vec(U16)]) for _ in params] + [BOOL for _ in skipped]
     cap = r.choice(["absent"] * 3 + ["always", "never", "default"])
     docs = [r.choice([" doc", "  two spaces", "nospace", " trailing  "]) for _ in range(r.randrange(0, 3))]
-    mods = ["mm"] * (r.random() < 0.3) + ["nn"] * (r.random() < 0.2)
+    mods = ["mm"] * (r.random() < 0.3) + ["nn"] * (r.random() < 0.2) + ["r#mod"] * (r.random() < 0.1)
     kind = r.choice(["struct", "struct", "enum"])
     name = ("R%d" if kind == "struct" else "Q%d") % i
     replace = []
@@ -277,7 +281,8 @@ def decl_src(d, with_codec):
     try: body = decl_src0(d, with_codec)
     finally: IN_MACRO[0] = False
     # the whole declaration is stamped out by a macro; the member types mentioning $t arrive as token groups
-    return "macro_rules! mk_%s { ($t:ty) => {\n%s} }\nmk_%s!(u8);\n" % (d["name"], body, d["name"])
+    mk = d["name"].replace("#", "_")
+    return "macro_rules! mk_%s { ($t:ty) => {\n%s} }\nmk_%s!(u8);\n" % (mk, body, mk)
 
 def decl_src0(d, with_codec):
     s = docs_src(d["docs"], "", d.get("doc_attr"))
@@ -402,7 +407,7 @@ def full_path(d):
     return "::".join(["d%d" % d["id"]] + d["mods"] + [d["name"]])
 
 def inst_ty(d):
-    subst = {p["name"]: src(t, d, None, True) for p, t in zip(d["tparams"], d["inst"])}
+    subst = {p["name"]: src(t, d, None, True).replace("PhantomData", "core::marker::PhantomData") for p, t in zip(d["tparams"], d["inst"])}
     inst = ["'static"] * len(d["lifetimes"]) + [subst[p["name"]] for p in d["tparams"]] + ["3"] * len(d.get("consts", []))
     return full_path(d) + ("<" + ", ".join(inst) + ">" if inst else ""), subst
 
@@ -421,7 +426,7 @@ def program(decls, seed, with_values, nvals):
         full = full_path(d)
         def exp(f):
             if f["skip"]: return "String::new()"
-            t = src(f["ty"], d, subst, True, selfpath=full).replace("PhantomData", "core::marker::PhantomData").replace("BTreeMap", "std::collections::BTreeMap")
+            t = src(f["ty"], d, subst, True, selfpath=full).replace("core::marker::PhantomData", "PhantomData").replace("PhantomData", "core::marker::PhantomData").replace("BTreeMap", "std::collections::BTreeMap")
             if f["compact"]: t = "scale::Compact<%s>" % t
             if f.get("encoded_as"): t = f["encoded_as"][0]
             return "dv::t::<%s>()" % t
